@@ -102,6 +102,8 @@ def render(d, svc="Svc"):
     L.append("        let log = Arc::new(Mutex::new(Vec::<String>::new()));")
     L.append("        let names = Arc::new(Mutex::new(Vec::<String>::new()));")
     L.append("        let (ct, st) = tarpc::transport::channel::unbounded();")
+    L.append("        let wire = Arc::new(Mutex::new(Vec::<String>::new()));")
+    L.append("        let st = crate::support::Tap { inner: st, seen: wire.clone() };")
     L.append("        let names2 = names.clone();")
     L.append(f"        let serve = Imp(log.clone()).serve().before(move |_c: &mut context::Context, r: &{camel(svc) if False else svc}Request| {{")
     L.append("            names2.lock().unwrap().push(r.name().to_string());")
@@ -116,6 +118,7 @@ def render(d, svc="Svc"):
         L.append(f"            ctx.trace_context.trace_id = tarpc::trace::TraceId::from({5000 + m.idx}u128);")
         L.append("            let before = log.lock().unwrap().len();")
         L.append("            let nb = names.lock().unwrap().len();")
+        L.append("            let wb = wire.lock().unwrap().len();")
         call_args = "".join(", " + arg_value(t, i) for i, t in enumerate(m.tys))
         L.append(f"            let got = client.{m.name}(ctx{call_args}).await;")
         exp = expected_value(m.idx, m.tys)
@@ -125,7 +128,10 @@ def render(d, svc="Svc"):
         L.append(f"            if !({check}) {{ fails.push(format!(\"method {m.name}: returned {{:?}}, expected {exp}\", got.map_err(|e| e.to_string()))); }}")
         argdbg = "|".join({"u32": str(i + 1), "String": '\\"' + "s" * (i + 1) + '\\"', "u8": str(i + 1)}[t] for i, t in enumerate(m.tys))
         want = f"{m.idx}|{argdbg + '|' if argdbg else ''}"
-        L.append(f"            let want = format!(\"{want}{{}}\", tarpc::trace::TraceId::from({5000 + m.idx}u128));")
+        L.append("            let on_wire = wire.lock().unwrap().get(wb).cloned().unwrap_or_else(|| \"<no request seen on the wire>\".to_string());")
+        L.append(f"            let callers = format!(\"{{}}\", tarpc::trace::TraceId::from({5000 + m.idx}u128));")
+        L.append(f"            if !crate::support::otel() && on_wire != callers {{ fails.push(format!(\"method {m.name}: implementor saw a request transmitted with trace id {{on_wire}}, the caller's context had {{callers}}\")); }}")
+        L.append(f"            let want = format!(\"{want}{{}}\", on_wire);")
         L.append("            let l = log.lock().unwrap();")
         L.append(f"            if l.len() != before + 1 || l[before] != want {{ fails.push(format!(\"method {m.name}: implementor saw {{:?}}, expected exactly [{{:?}}]\", &l[before..], want)); }}")
         bare = m.name.replace("r#", "")
@@ -224,6 +230,68 @@ def collision_crate(label, body):
     L.append("fn serde_json_min(f: &[String]) -> String { format!(\"RESULT {:?}\", f) }")
     return "\n".join(L)
 
+
+SUPPORT = """pub mod support {
+    #![allow(dead_code)]
+    use futures::{Sink, Stream};
+    use std::pin::Pin;
+    use std::sync::{Arc, Mutex};
+    use std::task::{Context, Poll};
+    use tarpc::ClientMessage;
+
+    /// Server-side tap: records the trace id of every request as it comes off the wire.
+    pub struct Tap<T> {
+        pub inner: T,
+        pub seen: Arc<Mutex<Vec<String>>>,
+    }
+    impl<T, Req, E> Stream for Tap<T>
+    where
+        T: Stream<Item = Result<ClientMessage<Req>, E>> + Unpin,
+    {
+        type Item = Result<ClientMessage<Req>, E>;
+        fn poll_next(mut self: Pin<&mut Self>, cx: &mut Context<'_>) -> Poll<Option<Self::Item>> {
+            let r = Pin::new(&mut self.inner).poll_next(cx);
+            if let Poll::Ready(Some(Ok(ClientMessage::Request(req)))) = &r {
+                self.seen.lock().unwrap().push(format!("{}", req.context.trace_context.trace_id));
+            }
+            r
+        }
+    }
+    impl<T, I> Sink<I> for Tap<T>
+    where
+        T: Sink<I> + Unpin,
+    {
+        type Error = T::Error;
+        fn poll_ready(mut self: Pin<&mut Self>, cx: &mut Context<'_>) -> Poll<Result<(), Self::Error>> {
+            Pin::new(&mut self.inner).poll_ready(cx)
+        }
+        fn start_send(mut self: Pin<&mut Self>, item: I) -> Result<(), Self::Error> {
+            Pin::new(&mut self.inner).start_send(item)
+        }
+        fn poll_flush(mut self: Pin<&mut Self>, cx: &mut Context<'_>) -> Poll<Result<(), Self::Error>> {
+            Pin::new(&mut self.inner).poll_flush(cx)
+        }
+        fn poll_close(mut self: Pin<&mut Self>, cx: &mut Context<'_>) -> Poll<Result<(), Self::Error>> {
+            Pin::new(&mut self.inner).poll_close(cx)
+        }
+    }
+    /// second regime: an OpenTelemetry layer is the (global) subscriber, so the tracer chooses the
+    /// trace ids and tarpc moves contexts through spans
+    pub fn otel() -> bool {
+        std::env::args().any(|a| a == "--otel")
+    }
+    pub fn install_otel() {
+        use opentelemetry::trace::TracerProvider as _;
+        use tracing_subscriber::layer::SubscriberExt;
+        let provider = opentelemetry_sdk::trace::TracerProvider::builder().build();
+        let tracer = provider.tracer("grid");
+        let sub = tracing_subscriber::registry().with(tracing_opentelemetry::layer().with_tracer(tracer));
+        tracing::subscriber::set_global_default(sub).expect("subscriber");
+        std::mem::forget(provider);
+    }
+}
+"""
+
 def write_workspace(root, tier, shards=16):
     defs, left = grid(tier)
     os.makedirs(root, exist_ok=True)
@@ -237,11 +305,11 @@ def write_workspace(root, tier, shards=16):
         members.append(name)
         os.makedirs(f"{root}/{name}/src", exist_ok=True)
         body = "\n\n".join(render(d) for d in chunk)
-        main = ["#[tokio::main(flavor = \"current_thread\")]", "async fn main() {"]
+        main = ["#[tokio::main(flavor = \"current_thread\")]", "async fn main() {", "    if support::otel() { support::install_otel(); }"]
         for d in chunk:
             main.append(f"    println!(\"RESULT {d['k']} {{:?}}\", d{d['k']}::run().await);")
         main.append("}")
-        src = body + "\n\n" + "\n".join(main) + "\n"
+        src = SUPPORT + "\n" + body + "\n\n" + "\n".join(main) + "\n"
         write_if_changed(f"{root}/{name}/src/main.rs", src)
         write_if_changed(f"{root}/{name}/Cargo.toml", crate_toml(name))
         for d in chunk:
@@ -273,6 +341,11 @@ edition = "2021"
 tarpc = {{ path = "{REPO}/tarpc", features = ["full"] }}
 tokio = {{ version = "1", features = ["rt", "macros"] }}
 futures = "0.3"
+tracing = "0.1"
+tracing-subscriber = "0.3"
+tracing-opentelemetry = "0.27"
+opentelemetry = "0.26"
+opentelemetry_sdk = "0.26"
 """
 
 def write_if_changed(path, text):
